@@ -307,6 +307,25 @@ func (w *World) RemoteConfig(st *env.Store, withCache bool) *mast.RemoteConfig {
 			return json.Marshal(v)
 		}
 	}
+	if cfg.RawStrings {
+		inner := rc.Marshal
+		rc.Marshal = func(v interface{}) ([]byte, error) {
+			if s, ok := v.(string); ok {
+				if err := w.Msh.Tick(); err != nil {
+					return nil, err
+				}
+				return []byte(s), nil
+			}
+			return inner(v)
+		}
+		rc.Unmarshal = func(b []byte, v interface{}) error {
+			if sp, ok := v.(*string); ok {
+				*sp = string(b)
+				return nil
+			}
+			return json.Unmarshal(b, v)
+		}
+	}
 	if cfg.AltKeyMarshal {
 		inner := rc.Marshal
 		rc.Marshal = func(v interface{}) ([]byte, error) {
